@@ -207,7 +207,7 @@ def run_resonator(case):
 # ----------------------------------------------------------------------- comb
 def gen_comb(run):
   for name in names_of(comb) + ["__call__"]:
-    for delay in range(1, run.pick(8, 12) + 1):
+    for delay in list(range(1, run.pick(8, 12) + 1)) + [32, 64, 65, 130]:
       for par in ("-1/2", "1/2", "9/10", "1", "99999999/100000000", "-9999999999/10000000000", "1000001/1000000",
                   "tau1", "tau10", "tauinf", "tau4e7", "tau1e12"):
         yield (name, delay, par)
@@ -220,6 +220,8 @@ def run_comb(case):
   if (kind == "tau") != par.startswith("tau"):
     return R(None, False, "n/a")
   x = [Q(v) for v in (1, 0, 0, 2, -1, 0, 3, 0, 0, 0, 0, 0, 1, 0, 0, 0, 0, 0, 0, 0, 0, 0, 0, 0, 0, 0)]
+  if delay > 12:
+    x = x + [Q(0)] * (2 * delay) + [Q(1), Q(-2)] + [Q(0)] * delay
   if kind == "tau":
     tau = {"tau1": 1.0, "tau10": 10.0, "tauinf": inf, "tau4e7": 4e7, "tau1e12": 1e12}[par]
     filt = design(delay, tau)
